@@ -847,7 +847,8 @@ func (k Keeper) GetPrice(
 	// compute the price
 	baseDenom := k.BaseDenom(ctx)
 	basePrice := pricing.Price.AmountOf(baseDenom)
-	price := sdk.NewDecFromInt(basePrice).Mul(discountByTime).Mul(discountByVolume)
+	// truncate, never round up: the fee is the floor of the exact discounted price
+	price := sdk.NewDecFromInt(basePrice).MulTruncate(discountByTime).MulTruncate(discountByVolume)
 
 	// set to 1 if price < 1
 	if price.LT(sdk.OneDec()) {
